@@ -109,6 +109,16 @@ def crash_sig(prop, rc, santxt):
         if m:
             kind = 'ubsan-' + re.sub(r'[^a-zA-Z]+', '-', m.group(1))[:50]
     frame = ''
+    if kind == 'stack-overflow':
+        # where the stack happens to run out is arbitrary: name the function that recurses (most frequent /repo frame)
+        names = collections.Counter()
+        for fm in re.finditer(r'#\d+ 0x[0-9a-f]+ in ([^\n]*)', santxt):
+            f = fm.group(1)
+            if '/repo/' in f:
+                fn = re.sub(r'<.*>', '', re.sub(r'\(.*', '', f)).strip().split('::')[-1]
+                names[fn + '@' + f.split('/repo/')[-1].split(':')[0]] += 1
+        if names:
+            return '%s:CRASH:%s:%s' % (prop, kind, names.most_common(1)[0][0])
     for fm in re.finditer(r'#\d+ 0x[0-9a-f]+ in ([^\n]*)', santxt):
         f = fm.group(1)
         if '/repo/' in f:
